@@ -811,6 +811,78 @@ func ruleS13(c *Ctx) {
 	if n < 30 {
 		c.undecided("functions using an owner's lock", token.NoPos, "only %d found; 30+ confirmed on the pinned tree", n)
 	}
+	// any other mutex (a local one shared with goroutine closures, a field of a type outside the guard table): the same
+	// balance, identified by the term of the mutex value
+	ownerLocks := map[*types.Var]bool{}
+	for _, o := range c.lockOwners() {
+		ownerLocks[o.lock] = true
+	}
+	anyLockOp := func(cc *ssa.CallCommon) (string, string) {
+		f := cc.StaticCallee()
+		if f == nil || f.Signature.Recv() == nil || len(cc.Args) == 0 {
+			return "", ""
+		}
+		if !isNamed(f.Signature.Recv().Type(), "sync", "RWMutex") && !isNamed(f.Signature.Recv().Type(), "sync", "Mutex") {
+			return "", ""
+		}
+		if fa, ok := cc.Args[0].(*ssa.FieldAddr); ok && ownerLocks[fieldVar(fa.X.Type(), fa.Field)] {
+			return "", "" // judged above
+		}
+		switch f.Name() {
+		case "Lock", "RLock", "Unlock", "RUnlock":
+			return f.Name(), c.term(cc.Args[0])
+		}
+		return "", ""
+	}
+	for _, fn := range c.srcFuncs("triple/...", "io", "storage/...", "bql/...") {
+		bases := map[string]bool{}
+		allInstrs(fn, func(in ssa.Instruction) {
+			if cc := callCommon(in); cc != nil {
+				if op, b := anyLockOp(cc); op != "" {
+					bases[b] = true
+				}
+			}
+		})
+		for _, base := range keys(bases) {
+			base := base
+			type st struct {
+				held, deferred bool
+			}
+			tr := func(s st, in ssa.Instruction) st {
+				cc := callCommon(in)
+				if cc == nil {
+					return s
+				}
+				op, b := anyLockOp(cc)
+				if b != base {
+					return s
+				}
+				if _, isDefer := in.(*ssa.Defer); isDefer {
+					if op == "Unlock" || op == "RUnlock" {
+						s.deferred = true
+					}
+					return s
+				}
+				switch op {
+				case "Lock", "RLock":
+					s.held = true
+				case "Unlock", "RUnlock":
+					s.held = false
+				}
+				return s
+			}
+			atRet, _ := flow(c, fn, st{}, tr, nil)
+			bad := ""
+			for r, ss := range atRet {
+				for s := range ss {
+					if s.held && !s.deferred {
+						bad = c.pos(r.Pos())
+					}
+				}
+			}
+			c.check(bad == "", fmt.Sprintf("%s releases mutex %s on every path", funcName(fn), truncate(base, 40)), fn.Pos(), "every return is reached with the mutex released or a release deferred", "the return at "+bad+" can be reached with the mutex "+truncate(base, 40)+" still locked and no deferred release: the next goroutine that wants it blocks forever")
+		}
+	}
 }
 
 // ---- S3b fields outside the guard table are immutable after construction ------------------------------------------------
